@@ -286,6 +286,12 @@ func child(c *kit.Ctx, role string) {
 				ok = guarded(s, fmt.Sprintf("failing-stop/%d", i), func() bool { runFailingStop(s, c, i, st); return true })
 			}
 		}
+		for i := 0; i < 6 && ok; i++ {
+			if c.Want(fmt.Sprintf("xr-watch-starter/%d", i)) {
+				i := i
+				ok = guarded(s, fmt.Sprintf("xr-watch-starter/%d", i), func() bool { runXRWatchStarter(s, c, i); return true })
+			}
+		}
 		for i := 0; i < p.gc && ok; i++ {
 			if c.Want(fmt.Sprintf("gc/%d", i)) {
 				i := i
